@@ -34,6 +34,12 @@ func init() {
 					ps = append(ps, Phase{Name: s + "-p" + p, Race: true, Run: c15Scenario, Env: map[string]string{"GOMAXPROCS": p}, Arg: s})
 				}
 			}
+			if tier == "thorough" {
+				// the same scenarios under a second Go runtime/scheduler (built by ./check with go1.26.8 when present)
+				for _, s := range []string{"S1-writers", "S2-starttls", "S3-stop-storms", "S4-teardown", "S5-directory-set", "S6-directory", "S7-starttls-then-stop"} {
+					ps = append(ps, Phase{Name: s + "-go126", Race: true, Run: c15Scenario, Bin: "verif-race126", Env: map[string]string{"GOMAXPROCS": "16"}})
+				}
+			}
 			return ps
 		},
 		MinObserved: []string{"scenario_executions", "S5_set_calls", "S5_client_ops"},
